@@ -128,8 +128,15 @@ theorem C14_partial_self {s : St} (h : Reachable s) (t : Tid) (hc : inCall s t =
   have hs : (s.loc t).hasSeq = true := by
     simp only [inCall, Bool.and_eq_true, decide_eq_true_eq, Bool.not_eq_true'] at hc
     simp [Loc.hasSeq, hc.1, hc.2]
-  rcases (invS_of_reachable h).self_dispatch t hs hr hp with e | e | e <;>
-    simp [blocked, blockedInPoll, blockedOnCond, e]
+  rcases (invS_of_reachable h).self_dispatch t hs hr hp with e | e | e | e
+  · simp [blocked, blockedInPoll, blockedOnCond, e]
+  · simp [blocked, blockedInPoll, blockedOnCond, e]
+  · simp [blocked, blockedInPoll, blockedOnCond, e]
+  · -- the thread that closed the connection completed its own request and is on its way out of `serve`
+    have hh := (invS_of_reachable h).raising_pc t e
+    have h1 : (s.loc t).pc ≠ .p0 := by intro e'; rw [e'] at hh; cases hh
+    have h2 : (s.loc t).pc ≠ .zz := by intro e'; rw [e'] at hh; cases hh
+    simp [blocked, blockedInPoll, blockedOnCond, h1, h2]
 
 /-- consequently, a stalled waiter's reply was always dispatched by a *different* thread -/
 theorem C14_stall_needs_other_receiver {s : St} (h : Reachable s) (t : Tid) (hc : inCall s t = true)
